@@ -77,6 +77,15 @@ proof fn lemma_three_ins(r: Seq<char>, q: Seq<char>, p: int)
     assert(q[i2] == r[i] && q[j2] == r[j] && q[k2] == r[k]);
     assert(q[i2] != q[j2] && q[i2] != q[k2] && q[j2] != q[k2]);
 }
+// ---- the greedy choice among plain word matches (C08 C13): the third attempt keeps the better-scoring match; on a tie a
+// content-word match replaces the pending one; a replacing match stops the scan exactly when it is not a function-word match
+pub open spec fn m_score(m: WordMatch) -> int { (m.subslice.1 - m.subslice.0) - 2 * ceil_of(m.typos) }
+pub open spec fn c3_replace(c: Option<(WordMatch, WordMatch)>, m2: WordMatch) -> bool {
+    match c { None => true, Some(p) => m_score(p.0) < m_score(m2) || (m_score(p.0) == m_score(m2) && !m2.func) }
+}
+pub open spec fn c3_step(c0: Option<(WordMatch, WordMatch)>, s0: bool, p2: (WordMatch, WordMatch), c1: Option<(WordMatch, WordMatch)>, s1: bool) -> bool {
+    if c3_replace(c0, p2.0) { c1 == Some(p2) && s1 == !p2.0.func } else { c1 == c0 && s1 == s0 }
+}
 pub open spec fn some_slot(s: Seq<Option<WordMatch>>) -> bool { exists|k: int| 0 <= k < s.len() && #[trigger] s[k] is Some }
 pub open spec fn mono_slots(a: Seq<Option<WordMatch>>, b: Seq<Option<WordMatch>>) -> bool { a.len() == b.len() && forall|k: int| 0 <= k < a.len() && #[trigger] a[k] is Some ==> b[k] is Some }
 // the text-level cases of common/tm_contract.rs are instances
@@ -552,9 +561,13 @@ fn text_match__c3(rtext: &TextRef, qtext: &TextRef, rword: &WordView, qword: &Wo
         must_match(rword, qword) ==> *final(candidate) is Some, // [C03 C04 C13]
         *final(stop) && !*old(stop) ==> *final(candidate) is Some, // [C03 C04 C13]
         cand_fin(*old(candidate), qword) ==> cand_fin(*final(candidate), qword), // [C13]
+        // C08: WHAT the attempt does with a plain word match p2 of the two words (function words do not stop the scan)
+        ret is Some ==> exists|p2: (WordMatch, WordMatch)| wm_shape(Some(p2), rword, qword) && #[trigger] c3_step(*old(candidate), *old(stop), p2, *final(candidate), *final(stop)), // [C08]
+        ret is None ==> *final(candidate) == *old(candidate) && *final(stop) == *old(stop), // [C08]
 {
     proof { lemma_view_wfs(rword, rtext, rword.offset as int); lemma_view_wfs(qword, qtext, qword.offset as int); }
     let (rmatch2, qmatch2) = word_match(&rword, &qword, tls)?;
+    let ghost p2 = (rmatch2, qmatch2); let ghost c0 = *candidate; let ghost s0 = *stop;
     proof {
         lemma_typos_ceil(rmatch2.typos);
         lemma_wf_for_slot(rmatch2, rword, rtext, rword.offset as int);
@@ -575,5 +588,6 @@ fn text_match__c3(rtext: &TextRef, qtext: &TextRef, rword: &WordView, qword: &Wo
         *stop = !rmatch2.func;
         *candidate = Some((rmatch2, qmatch2));
     }
+    proof { assert(c3_step(c0, s0, p2, *candidate, *stop)); }
     Some(())
 }
